@@ -789,3 +789,106 @@ func init() {
 		return &StructV{F: []Value{&SliceV{Arr: ptrTo(o), Off: c64(0), Len: n, Cap: c64(256)}, e.nondetErr("proto.Marshal")}}
 	}
 }
+
+// ---- proto.Clone: deep copy of the message's object graph ----
+func (e *Engine) deepCopy(v Value, seen map[*Object]*Object, depth int) Value {
+	if depth > 12 {
+		panic(unsupported("deepCopy: object graph too deep"))
+	}
+	switch x := v.(type) {
+	case nil:
+		return nil
+	case *Term:
+		return x
+	case *StructV:
+		out := &StructV{F: make([]Value, len(x.F))}
+		for i := range x.F {
+			out.F[i] = e.deepCopy(x.F[i], seen, depth+1)
+		}
+		return out
+	case *ArrV:
+		return x
+	case *StrV:
+		return x
+	case *VecV:
+		out := &VecV{E: make([]Value, len(x.E))}
+		for i := range x.E {
+			out.E[i] = e.deepCopy(x.E[i], seen, depth+1)
+		}
+		return out
+	case *PtrV:
+		out := &PtrV{}
+		for _, t := range x.T {
+			no, ok := seen[t.Obj]
+			if !ok {
+				no = newObject("clone:"+t.Obj.name, t.Obj.typ, nil)
+				seen[t.Obj] = no
+				no.val = e.deepCopy(t.Obj.val, seen, depth+1)
+			}
+			out.T = append(out.T, PtrTarget{G: t.G, Obj: no, Path: t.Path})
+		}
+		return out
+	case *SliceV:
+		return &SliceV{Arr: e.deepCopy(x.Arr, seen, depth+1).(*PtrV), Off: x.Off, Len: x.Len, Cap: x.Cap}
+	case *IfaceV:
+		out := &IfaceV{}
+		for _, al := range x.A {
+			out.A = append(out.A, IfaceAlt{G: al.G, Typ: al.Typ, Val: e.deepCopy(al.Val, seen, depth+1)})
+		}
+		return out
+	case *MapV, *ChanV, *FuncV:
+		return x
+	}
+	panic(unsupported(fmt.Sprintf("deepCopy of %T", v)))
+}
+
+func init() {
+	intrinsics["google.golang.org/protobuf/proto.Clone"] = func(e *Engine, fr *frame, fn *ssa.Function, args []Value, g *Term, pos token.Pos) Value {
+		e.note("proto.Clone modelled as a deep copy of the message's Go object graph")
+		return e.deepCopy(args[0], map[*Object]*Object{}, 0)
+	}
+	ptrTo1 := func(name string) intrinsic {
+		return func(e *Engine, fr *frame, fn *ssa.Function, args []Value, g *Term, pos token.Pos) Value {
+			o := newObject(name, fn.Signature.Params().At(0).Type(), args[0])
+			return ptrTo(o)
+		}
+	}
+	for _, n := range []string{"Bool", "Int32", "Int64", "Uint32", "Uint64", "String", "Float32", "Float64"} {
+		intrinsics["google.golang.org/protobuf/proto."+n] = ptrTo1("proto." + n)
+	}
+	// fmt.Sprintf with a literal format and scalar arguments: a deterministic
+	// (uninterpreted) function of its arguments
+	intrinsics["fmt.Sprintf"] = func(e *Engine, fr *frame, fn *ssa.Function, args []Value, g *Term, pos token.Pos) Value {
+		f, ok := args[0].(*StrV)
+		if ok {
+			if fs, ok := f.concrete(); ok {
+				if va, ok := args[1].(*SliceV); ok && va.Len.IsConst() {
+					var ts []*Term
+					allScalar := true
+					for i := 0; i < int(va.Len.val); i++ {
+						el := e.sliceElem(va, c64(int64(i)))
+						iv, ok := el.(*IfaceV)
+						if !ok || len(iv.A) != 1 {
+							allScalar = false
+							break
+						}
+						t, ok := iv.A[0].Val.(*Term)
+						if !ok || t.sort.K != SBV {
+							allScalar = false
+							break
+						}
+						ts = append(ts, Resize(t, 64, true))
+					}
+					if allScalar && len(ts) > 0 {
+						key := fmt.Sprintf("sprintf.%x", fs)
+						l := Apply(key+".len", BV(64), ts...)
+						e.assume(Ule(l, c64(48)))
+						d := Apply(key+".data", ArrS(64, 8), ts...)
+						return &StrV{Len: l, Data: d, Max: 48}
+					}
+				}
+			}
+		}
+		return e.opaqueString("fmt.Sprintf")
+	}
+}
